@@ -261,7 +261,7 @@ class Program:
         while cur is not None:
             p = parents[cur]
             it = self.items.get(cur[0])
-            chain.append((it["path"] if it else cur[0], dict(cur[1])))
+            chain.append((it["path"] if it else "closure/" + str(cur[0]), dict(cur[1])))
             cur = p[0] if p else None
         return list(reversed(chain))
 
